@@ -129,3 +129,118 @@ class Inliner:
 
     def inline_at(self, expr):
         return self.inline(expr, self.stmt_of(expr))
+
+
+# ------------------------------------------------------------------------------------------------ shape normalisation
+def _is_continue_guard(s):
+    return isinstance(s, ast.If) and not s.orelse and len(s.body) == 1 and isinstance(s.body[0], ast.Continue)
+
+
+def _append_loop(init, loop):
+    """`X = []` / `X = {}` (or annotated) followed by a nest `for v in IT: [for w in IT2: ...] [if C:] X.append(E)` / `X.extend(E)` / `X[K] = E`
+    ->  the comprehension assigned to X, or None"""
+    tgt = init.targets[0] if isinstance(init, ast.Assign) and len(init.targets) == 1 else (init.target if isinstance(init, ast.AnnAssign) else None)
+    val = init.value
+    is_list = isinstance(val, ast.List) and not val.elts
+    is_dict = isinstance(val, ast.Dict) and not val.keys
+    if not (isinstance(tgt, ast.Name) and (is_list or is_dict)):
+        return None
+    mentions = lambda e: any(isinstance(n, ast.Name) and n.id == tgt.id for n in ast.walk(e))  # noqa: E731
+    gens, st = [], loop
+    while isinstance(st, ast.For):
+        if st.orelse or not isinstance(st.target, ast.Name) or len(st.body) != 1 or mentions(st.iter):
+            return None
+        gens.append(ast.comprehension(target=st.target, iter=st.iter, ifs=[], is_async=0))
+        st = st.body[0]
+        if isinstance(st, ast.If) and not st.orelse and len(st.body) == 1 and not isinstance(st.body[0], ast.Continue):
+            if mentions(st.test):
+                return None
+            gens[-1].ifs.append(st.test)
+            st = st.body[0]
+    if not gens:
+        return None
+    if is_list:
+        if not (isinstance(st, ast.Expr) and isinstance(st.value, ast.Call) and isinstance(st.value.func, ast.Attribute) and isinstance(st.value.func.value, ast.Name)
+                and st.value.func.value.id == tgt.id and st.value.func.attr in ("append", "extend") and len(st.value.args) == 1 and not st.value.keywords):
+            return None
+        if mentions(st.value.args[0]):
+            return None
+        if st.value.func.attr == "append":
+            elt = st.value.args[0]
+        else:
+            inner = ast.Name(id="_elt_of_" + tgt.id, ctx=ast.Store())
+            gens.append(ast.comprehension(target=inner, iter=st.value.args[0], ifs=[], is_async=0))
+            elt = ast.Name(id="_elt_of_" + tgt.id, ctx=ast.Load())
+        comp = ast.ListComp(elt=elt, generators=gens)
+    else:
+        if not (isinstance(st, ast.Assign) and len(st.targets) == 1 and isinstance(st.targets[0], ast.Subscript) and isinstance(st.targets[0].value, ast.Name)
+                and st.targets[0].value.id == tgt.id and not mentions(st.value) and not mentions(st.targets[0].slice)):
+            return None
+        comp = ast.DictComp(key=st.targets[0].slice, value=st.value, generators=gens)
+    new = ast.Assign(targets=[ast.Name(id=tgt.id, ctx=ast.Store())], value=comp)
+    return ast.fix_missing_locations(ast.copy_location(new, loop))
+
+
+def _dict_view_loop(s):
+    """`for v in D.values(): B`  /  `for k, v in D.items(): B`   ->   `for k in D.keys(): B[v := D[k]]`   (v, k not rebound in B; D a plain name)"""
+    it = s.iter
+    if not (isinstance(s, ast.For) and isinstance(it, ast.Call) and isinstance(it.func, ast.Attribute) and isinstance(it.func.value, ast.Name)
+            and it.func.attr in ("values", "items") and not it.args and not it.keywords):
+        return s
+    d = it.func.value.id
+    if it.func.attr == "values" and isinstance(s.target, ast.Name):
+        k, v = "_key_of_" + s.target.id, s.target.id
+    elif it.func.attr == "items" and isinstance(s.target, ast.Tuple) and len(s.target.elts) == 2 and all(isinstance(x, ast.Name) for x in s.target.elts):
+        k, v = s.target.elts[0].id, s.target.elts[1].id
+    else:
+        return s
+    if Inliner.mentions_store(s.body + s.orelse, v) or Inliner.mentions_store(s.body + s.orelse, k) or Inliner.mentions_store(s.body + s.orelse, d):
+        return s
+
+    class Sub(ast.NodeTransformer):
+        def visit_Name(self, n):
+            if n.id == v and isinstance(n.ctx, ast.Load):
+                return ast.copy_location(ast.Subscript(value=ast.Name(id=d, ctx=ast.Load()), slice=ast.Name(id=k, ctx=ast.Load()), ctx=ast.Load()), n)
+            return n
+    new = ast.For(target=ast.Name(id=k, ctx=ast.Store()), iter=ast.Call(func=ast.Attribute(value=ast.Name(id=d, ctx=ast.Load()), attr="keys", ctx=ast.Load()), args=[], keywords=[]),
+                  body=[Sub().visit(b) for b in s.body], orelse=s.orelse)
+    return ast.fix_missing_locations(ast.copy_location(new, s))
+
+
+def normalise_block(stmts, in_loop=False):
+    """behaviour-preserving reshaping of a statement list into the forms the translators know:
+       * inside a loop body, `if T: continue` followed by the rest  ->  `if not T: <rest>`
+       * `for v in D.values()` / `for k, v in D.items()`  ->  `for k in D.keys()` with D[k] for v
+       * `X = []` / `X = {}` directly followed by a loop nest that only appends to / extends / sets one key of X  ->  `X = <comprehension>`
+         (a dict built by distinct keys in loop order is the dict comprehension; a repeated key keeps its first position and last value in both)"""
+    out = []
+    i = 0
+    stmts = list(stmts)
+    while i < len(stmts):
+        s = stmts[i]
+        if in_loop and _is_continue_guard(s) and i + 1 < len(stmts):
+            rest = normalise_block(stmts[i + 1:], in_loop)
+            neg = s.test.operand if isinstance(s.test, ast.UnaryOp) and isinstance(s.test.op, ast.Not) else ast.UnaryOp(op=ast.Not(), operand=s.test)
+            new = ast.If(test=neg, body=rest, orelse=[])
+            out.append(ast.fix_missing_locations(ast.copy_location(new, s)))
+            return out
+        if isinstance(s, ast.For):
+            s = _dict_view_loop(s)
+        for fld in ("body", "orelse"):
+            sub = getattr(s, fld, None)
+            if isinstance(sub, list) and sub and isinstance(sub[0], ast.stmt) and not isinstance(s, (ast.FunctionDef, ast.ClassDef)):
+                setattr(s, fld, normalise_block(sub, in_loop or (fld == "body" and isinstance(s, (ast.For, ast.While)))))
+        if out and isinstance(out[-1], (ast.Assign, ast.AnnAssign)) and out[-1].value is not None:
+            comp = _append_loop(out[-1], s)
+            if comp is not None:
+                out[-1] = comp
+                i += 1
+                continue
+        out.append(s)
+        i += 1
+    return out
+
+
+def normalise(fn):
+    fn.body = normalise_block(fn.body)
+    return fn
